@@ -44,7 +44,7 @@ def write_case(root, cfg):
         lines.append("quantis = true")
     eng = os.path.join(sysdrv.PLUGINS, "lattice_engine.py")
     orp = os.path.join(sysdrv.PLUGINS, "lattice_orderp.py")
-    names = (["engine"] + (["engine0"] if cfg["quantis"] else [])) if cfg["engine_defined"] else []
+    names = {"none": [], "main": ["engine"], "both": ["engine", "engine0"]}[cfg["engines"]]
     for name in names:
         lines += ["", f"[{name}]", 'class = "LatticeEngine"', f'module = "{eng}"', 'engine = "lattice"', "timestep = 1.0",
                   "subcycles = 1", "temperature = 1.0", "left_wall = -3", "sleep = 0.0"]
@@ -166,8 +166,8 @@ def _why(cfg):
         return "too-many-workers"
     if len(cfg["moves"]) < n:
         return "too-few-moves"
-    if not cfg["engine_defined"]:
-        return "undefined-engine"
+    if cfg["engines"] == "none" or (cfg["quantis"] and cfg["engines"] != "both"):
+        return "undefined-engine" + (":quantis-without-engine0" if cfg["engines"] == "main" else "")
     if cfg["lm1"] != NONE and cfg["lm1"] >= 2 * intf[0] + 1:
         return "lambda_minus_one-not-below-lambda_0"
     if cfg["cap"] != NONE:
